@@ -139,7 +139,7 @@ def k2_classname(midx: List[int], shape: int) -> bool:
     return g.script.endswith('.py') and base.startswith('test') and (g.ref_subdir() != '' or len(base) <= 8)
 
 
-NAME_ALPHABET = 'abz09_-.'
+NAME_ALPHABET = 'abz09_-.\u00b2'
 
 
 def k2_test_names(i1: List[int], i2: List[int], i3: List[int]) -> bool:
